@@ -79,7 +79,7 @@ func (mergeEngine) Gen(t *rapid.T, tier string) any {
 	if tier == "thorough" {
 		maxOps = 12
 	}
-	c.RepeatID = rapid.IntRange(0, 9).Draw(t, "repeat") == 0
+	c.RepeatID = rapid.IntRange(0, 3).Draw(t, "repeat") == 0
 	nops := rapid.IntRange(1, maxOps).Draw(t, "nops")
 	nReq, nEv, nCnt := 0, 0, 0
 	subN := 0
@@ -685,6 +685,32 @@ func mergeJudge(sim *simrt.Sim, c *MergeCase, cl *simrt.Client, stubs []*mStub, 
 		}
 		if repeated {
 			st.Probe("repeated_event_id")
+			// each submission has its own conjunction of child verdicts: the
+			// multiset of received verdicts must equal the multiset of those
+			if complete && len(got) == len(rs) {
+				wantAcc, gotAcc := 0, 0
+				for _, r := range rs {
+					acc := true
+					for _, sb := range stubs {
+						for _, cr := range sb.recs {
+							if cr.req == -1 && cr.evIdx == r.k && !cr.msg.(*mocrelay.ServerOKMsg).Accepted {
+								acc = false
+							}
+						}
+					}
+					if acc {
+						wantAcc++
+					}
+				}
+				for _, g := range got {
+					if g.Msg.(*mocrelay.ServerOKMsg).Accepted {
+						gotAcc++
+					}
+				}
+				if wantAcc != gotAcc {
+					sim.Violate("C09", "wrong-verdict", map[string]string{"repeated": "true"}, "event %s submitted %d times: %d submissions were accepted by every child, %d accepting OKs received", ref.Short(id), len(rs), wantAcc, gotAcc)
+				}
+			}
 			continue
 		}
 		if len(got) != 1 {
